@@ -13,23 +13,32 @@
 (*   GInv(a)     a^(-1) for a # 0, GInv(0) = 0.  Computed as a^254 (the     *)
 (*               multiplicative group has order 255); ST_AesThm checks       *)
 (*               GMul(a, GInv(a)) = 1 for every a in 1..255.                 *)
+(*                                                                         *)
+(* NAMING.  Every identifier below is prefixed gf on purpose.  TLC decides  *)
+(* whether a zero-arity definition is a constant (evaluated once and        *)
+(* cached) BY NAME: if any parameter / LET name reachable from it is spelled *)
+(* like a VARIABLE of the root specification, the definition is silently    *)
+(* re-evaluated at every use.  Aes!SBox is built from these operators.      *)
+(* For the same reason a root specification using Aes must not declare      *)
+(* variables named x, y, n, m or exp (names inside CommunityModules'        *)
+(* Bitwise.tla, reached through ^^).                                        *)
 (***************************************************************************)
 EXTENDS Naturals, Bitwise
 
 \* s.4.2.1: left shift, then conditional xor with {1b} when b7 was set
-XTime(a) == IF a >= 128 THEN (2*a - 256) ^^ 27 ELSE 2*a
+XTime(gfa) == IF gfa >= 128 THEN (2*gfa - 256) ^^ 27 ELSE 2*gfa
 
-\* acc + a*b with the remaining bits of a; b runs through b, xtime(b), xtime(xtime(b)), ...
+\* gfacc + gfa*gfb with the remaining bits of gfa; gfb runs through b, xtime(b), xtime(xtime(b)), ...
 RECURSIVE GMulR(_,_,_)
-GMulR(a, b, acc) == IF a = 0 THEN acc
-                    ELSE GMulR(a \div 2, XTime(b), IF (a % 2) = 1 THEN acc ^^ b ELSE acc)
-GMul(a, b) == GMulR(a, b, 0)
+GMulR(gfa, gfb, gfacc) == IF gfa = 0 THEN gfacc
+                          ELSE GMulR(gfa \div 2, XTime(gfb), IF (gfa % 2) = 1 THEN gfacc ^^ gfb ELSE gfacc)
+GMul(gfa, gfb) == GMulR(gfa, gfb, 0)
 
 RECURSIVE GPow(_,_)
-GPow(a, n) == IF n = 0 THEN 1
-              ELSE LET h  == GPow(a, n \div 2)
-                       sq == GMul(h, h)
-                   IN IF (n % 2) = 1 THEN GMul(sq, a) ELSE sq
+GPow(gfa, gfn) == IF gfn = 0 THEN 1
+                  ELSE LET gfh  == GPow(gfa, gfn \div 2)
+                           gfsq == GMul(gfh, gfh)
+                       IN IF (gfn % 2) = 1 THEN GMul(gfsq, gfa) ELSE gfsq
 
-GInv(a) == GPow(a, 254)
+GInv(gfa) == GPow(gfa, 254)
 =============================================================================
